@@ -304,6 +304,7 @@ func (s *Sched) Run(tasks []func()) {
 	}
 	simhook.Hook = s.yield
 	simhook.BlockedHook = s.blocked
+	simhook.ResetOnce()
 	finished := make([]chan struct{}, s.n)
 	s.active = true
 	for i := range tasks {
